@@ -1425,6 +1425,41 @@ impl<RW: QueueRW<T>, T> Stream for &FutInnerRecv<RW, T> {""")]),
         }
     }
 }""")]),
+    # ---- round 6 (refactoring commits with a slip): clauses added for the misses
+    V('into-multi-forgets-handle', 'C17', ['P13g'], [E(MQ, """        let new_reader = self.reader.add_stream();
+        FutInnerRecv {
+            reader: new_reader,
+            wait: self.wait.clone(),
+            prod_wait: self.prod_wait.clone(),
+        }
+    }
+}
+""", """        let new_reader = self.reader.add_stream();
+        let out = FutInnerRecv {
+            reader: new_reader,
+            wait: self.wait.clone(),
+            prod_wait: self.prod_wait.clone(),
+        };
+        // the old handle is taken apart by hand; its two Arc<FutWait> are forgotten with it
+        let mut this = mem::ManuallyDrop::new(self);
+        unsafe {
+            ptr::drop_in_place(&mut this.reader);
+            ptr::drop_in_place(&mut this.op);
+        }
+        out
+    }
+}
+""")], note='the forgotten FutInnerUniRecv keeps its two Arc<FutWait> strong counts: the wait objects are never freed'),
+    V('sink-attempt-skips-signals', 'C13', ['P11a'], [E(MQ, """            .send_or_park(|m| self.writer.try_send(m), msg)""",
+                                                         """            .send_or_park(|m| self.writer.queue.try_send_multi(m), msg)""")],
+      note='the sink attempt never looks at the no-reader signal: the Disconnected arm of start_send is dead, a send after the last receiver left is accepted'),
+    V('futwait-needs-notify-false', 'C15', ['P7c'], [E(MQ, """    fn needs_notify(&self) -> bool {
+        true
+    }
+}""", """    fn needs_notify(&self) -> bool {
+        false
+    }
+}""")], note='try_send on a futures queue no longer wakes parked Stream tasks'),
 ]
 
 # behaviour-preserving patches written by independent sub-agents (tools/eval_refactors.sh, DESIGN 12.9): every check
